@@ -587,7 +587,8 @@ fn finish<B: attohttpc::body::Body>(rb: attohttpc::RequestBuilder<B>, case: &Sen
     verif_hooks::set_plain_tunnels(false);
     obs.fin = match res {
         Err(_) => FinalObs::Panic,
-        Ok(Ok(resp)) => FinalObs::Ok(resp.status().as_u16(), url_show(resp.url())),
+        // the URL the response reports, whole: credentials and fragment are part of it (seed C09-seed8)
+        Ok(Ok(resp)) => FinalObs::Ok(resp.status().as_u16(), resp.url().as_str().to_string()),
         Ok(Err(e)) => match e.kind() {
             attohttpc::ErrorKind::ConnectError { status_code, body } => FinalObs::ConnectError(status_code.as_u16(), body.clone()),
             _ => match classify_atto(&e) {
